@@ -77,6 +77,18 @@ SUITES["idgen"] = dict(
     batches={"quick": 3, "thorough": 5}, timeout={"quick": 300, "thorough": 1200},
 )
 
+SUITES["wspool"] = dict(
+    test="TestWsPool", coq_module="Cases.WSPoolCase", case_type="wp_case", eval="eval_wp_case",
+    cols=["diff_out", "diff_closed", "mon_exclusive", "mon_fresh", "mon_max_idle", "mon_shutdown", "nt_c20"],
+    batches={"quick": 4, "thorough": 16}, timeout={"quick": 300, "thorough": 3000},
+)
+
+SUITES["tunnel"] = dict(
+    test="TestTunnel", coq_module="Cases.WireCase", case_type="tu_case", eval="eval_tu_case", needs_binary=True,
+    cols=["diff", "mon_tunnel_relay", "mon_tunnel_close", "nt_c20"],
+    batches={"quick": 6, "thorough": 16}, timeout={"quick": 400, "thorough": 3000},
+)
+
 PROPS = {
     "C09": dict(
         props_file="Props/C09.v",
@@ -402,6 +414,30 @@ PROPS["C18"] = dict(
                "every generated configuration), harness, yaml.v3 decoding, Model/Chain.v factory rules (tied by the chain suite).",
     trusted_base=["go2coq config translator (Gen/ConfigGen.v)", "Model/ConfigSpec.v (hand-written specification of the documented constraints)"],
     assumptions=["time.Duration overflow for absurd second counts out of scope", "TLS files' existence is checked at start-up, not by Validate"],
+)
+
+PROPS["C20"] = dict(
+    props_file="Props/C20.v", gen=["Wrappers"],
+    suites=[dict(suite="wspool", corr=["diff_out", "diff_closed"], monitors=["mon_exclusive", "mon_fresh", "mon_max_idle", "mon_shutdown"],
+                 classifiers={}, nontrivial="nt_c20"),
+            dict(suite="tunnel", corr=["diff"], monitors=["mon_tunnel_relay", "mon_tunnel_close"], classifiers={}, nontrivial="nt_c20")],
+    rule="wspool: the real WebSocketPool under virtual time with fake net.Conns: max_idle 0..3, idle_timeout 0 / 1 ns / 1..300 s, 1-2 backends, "
+         "histories of Put (new or held connection) / Get / Close / Stats / Shutdown / time gaps on the timeout and on the 30 s clean-up "
+         "ticker +-1 ns (the pool's own ticker runs the clean-up), and a Get or Put started from another goroutine WHILE the clean-up is "
+         "closing a stale connection of that backend; compared: every return value, Stats, the set of closed connections. tunnel: an Upgrade "
+         "session through the real binary with plugin chains of length 0..3 (pool enabled or not, backend_read 1 s): 0..8 binary messages of "
+         "1..100000 bytes in both directions, optional 1.3 s of silence, close from either side; non-trivial = a Get that returns a "
+         "connection after a time gap / a session with >= 2 messages; distinct = by case hash",
+    level_text="Pool: theorems over every history of the model: never more than max_idle idle connections per backend; Get returns only a "
+               "connection pooled for that backend at most idle_timeout ago; under the holder protocol no connection is pooled twice, handed "
+               "to two holders or handed out closed (invariant over all histories); Shutdown closes everything held and empties the pool; the "
+               "clean-up closes exactly the stale ones. Tunnel (PARTIAL): any stack of the response-writer wrappers in the source forwards "
+               "Hijack (regenerated table); the byte relay is httputil's and is exercised, not proved.",
+    level_note="Trusted: Coq kernel, harness (fake connections, synctest clock, close hook for the concurrent case), Model/WSPool.v. Mutual "
+               "exclusion of the per-backend mutex is assumed; the only interleaving exercised inside an operation is Get/Put against a "
+               "running clean-up of the same backend. The proxy path never calls Put (stated; the pool is exercised through its API).",
+    trusted_base=["Model/WSPool.v (hand-written; tied by the wspool suite)", "go2coq Gen/Wrappers.v"],
+    assumptions=["holders Put / Close only connections they hold or have just dialled", "virtual time non-decreasing"],
 )
 
 # properties not claimed, each with a one-line reason (kept current as checks are added)
